@@ -285,7 +285,11 @@ PROPS["C13"] = {
              "(break a good file, add a bad file, remove a directory) and repairs (replace a bad file by valid content or remove it, turn a "
              "faulty path into a real directory with a good file), each followed by Refresh() on the same cache. The perm unit applies "
              "permission faults (file mode 000, directory mode 000, directory mode 444, unreadable ancestor) and scans as uid 65534 "
-             "through the vhelper binary. Oracle after every step: (1) layout.CompareView - every device of every good file resolves to "
+             "through the vhelper binary. The readfaults unit runs the scan in the helper under strace and, for up to 12 of the openat / "
+             "getdents64 / read calls the last scan performs on a configured directory or on a Spec file (listed by a calibration run), "
+             "injects one errno of {EIO, EACCES, ENOENT, EMFILE, ENOMEM} into exactly that call (each run re-validated from its own "
+             "trace): a failing file must be reported and must not affect the others, a failing directory must not affect the other "
+             "directories. Oracle after every step: (1) layout.CompareView - every device of every good file resolves to "
              "its definition and nothing else is listed; (2) GetErrors has an entry for every failing Spec-named file and none for a "
              "good file; (3) Refresh returns an error if a Spec file is in error and nil if all directories are readable or absent and "
              "all files valid (other directory faults leave it open); (4) GetSpecErrors agrees with GetErrors and no stale entry "
@@ -301,15 +305,17 @@ PROPS["C13"] = {
         "technique": "property-based fault enumeration: rapid state machine over fault placements and repairs, reference-model oracle; privilege-dropped helper process for permission faults",
     },
     "helpers": ("vhelper",),
-    "health_optional_if": {"env:permission-faults-not-effective-skipped": ["permfault:"]},
+    "health_optional_if": {"env:permission-faults-not-effective-skipped": ["permfault:"], "env:strace-unavailable-skipped": ["iofault"]},
     "health": {"quick": {"dirfault:afile/sub": 500, "dirfault:fregular": 500, "dirfault:flink": 500, "dir-fault-before-good-directory": 1000,
                          "file-fault-before-good-directory": 1000, "filefault:dangling-link": 300, "filefault:link-loop": 300,
                          "filefault:link-to-dir": 300, "filefault:bad-syntax": 500, "filefault:empty": 300, "after:repairFile": 1000,
                          "after:repairDirFault": 200, "permfault:dir-mode-000": 50, "permfault:dir-mode-444": 50,
-                         "permfault:file-mode-000": 50, "permfault:unreadable-ancestor": 50}},
+                         "permfault:file-mode-000": 50, "permfault:unreadable-ancestor": 50,
+                         "iofault:openat": 100, "iofault:read": 100, "iofault:getdents64": 100, "iofault-on:file": 200, "iofault-on:directory": 200}},
     "units": [
         {"name": "rapid", "mode": "rapid", "run": "TestC13Rapid", "checks": {"quick": 6400, "thorough": 128000}},
         {"name": "perm", "mode": "rapid", "run": "TestC13Perm", "checks": {"quick": 1600, "thorough": 32000}},
+        {"name": "readfaults", "mode": "rapid", "run": "TestC13ReadFaults", "checks": {"quick": 160, "thorough": 3200}},
     ],
 }
 
@@ -388,14 +394,15 @@ PROPS["C17"] = {
     "manifest": {
         "text": ("Differential test of every validation entry point, both encodings and three schema configurations against an independent "
                  "draft-07 evaluator over the shipped schema files, on valid Specs and type/bound/extra-member mutants of them. Sampling; "
-                 "the thorough tier additionally cross-checks the model against python jsonschema (oracle dispute = undecided)."),
-        "note": "trusted: model/draft07.go (draft-07 semantics), cross-validated in the thorough tier against python jsonschema Draft7Validator",
+                 "the model itself is cross-checked in every run against python jsonschema's Draft7Validator on generated documents (an oracle dispute makes the run undecided, never a violation)."),
+        "note": "trusted: model/draft07.go (draft-07 semantics), cross-validated in every run against python jsonschema Draft7Validator (unit model-crosscheck; skipped and labelled if python3-vt is missing)",
         "technique": "property-based testing: differential against a reference draft-07 evaluator; JSON/YAML metamorphic equality; entry-point differential",
     },
     "health": {"quick": {"model-valid": 2000, "model-invalid": 5000, "annotations-malformed": 500, "integer-beyond-2^53": 1000, "in-memory-spec": 1000, "yaml-encodable": 10000}},
     "units": [
         {"name": "regress", "mode": "plain", "run": "TestC17Regress"},
         {"name": "rapid", "mode": "rapid", "run": "TestC17Rapid", "checks": {"quick": 24000, "thorough": 480000}},
+        {"name": "model-crosscheck", "mode": "rapid", "run": "TestC17ModelCrossCheck", "shards": {"quick": 2, "thorough": 8}, "checks": {"quick": 4000, "thorough": 100000}},
     ],
 }
 
